@@ -84,6 +84,10 @@ pub enum FileCase {
     /// ONE entity: `reads` complete streams of the whole file (plus a partial one), then the file
     /// is truncated to `trunc_to` bytes, then streamed again
     Reuse { size: u64, reads: u32, trunc_to: u64 },
+    /// ONE entity, a sequence of ranges starting with one that ends at the end of the file, each
+    /// compared with the file; then one multi-range request through serve() whose first part is
+    /// the tail of the file
+    RangeSeq { size: u64, seed: u64 },
     NonRegular,
     /// a sparse file of `size` bytes (zeros with a marker byte every 1 MiB - 1): long streams of
     /// many consecutive full reads
@@ -98,6 +102,7 @@ impl FileCase {
             FileCase::Read { size, a, b, cap, trunc, via_serve } => json!({"read": {"size": size, "a": a, "b": b, "cap": cap, "trunc": trunc.map(|t| json!([t.0, t.1])), "via_serve": via_serve}}),
             FileCase::Meta { size } => json!({"meta": {"size": size}}),
             FileCase::Reuse { size, reads, trunc_to } => json!({"reuse": {"size": size, "reads": reads, "trunc_to": trunc_to}}),
+            FileCase::RangeSeq { size, seed } => json!({"range_seq": {"size": size, "seed": seed}}),
             FileCase::NonRegular => json!("non_regular"),
             FileCase::BigSparse { size, a, b } => json!({"big_sparse": {"size": size, "a": a, "b": b}}),
             FileCase::Concurrent { size, tasks, per_task, seed } => json!({"concurrent": {"size": size, "tasks": tasks, "per_task": per_task, "seed": seed}}),
@@ -117,6 +122,8 @@ impl FileCase {
             FileCase::Concurrent { size: m["size"].as_u64().unwrap_or(0), tasks: m["tasks"].as_u64().unwrap_or(2) as u32, per_task: m["per_task"].as_u64().unwrap_or(1) as u32, seed: m["seed"].as_u64().unwrap_or(0) }
         } else if let Some(m) = v.get("big_sparse") {
             FileCase::BigSparse { size: m["size"].as_u64().unwrap_or(0), a: m["a"].as_u64().unwrap_or(0), b: m["b"].as_u64().unwrap_or(0) }
+        } else if let Some(m) = v.get("range_seq") {
+            FileCase::RangeSeq { size: m["size"].as_u64().unwrap_or(0), seed: m["seed"].as_u64().unwrap_or(0) }
         } else if let Some(m) = v.get("reuse") {
             FileCase::Reuse { size: m["size"].as_u64().unwrap_or(0), reads: m["reads"].as_u64().unwrap_or(1) as u32, trunc_to: m["trunc_to"].as_u64().unwrap_or(0) }
         } else if let Some(m) = v.get("meta") {
@@ -614,6 +621,66 @@ fn run_reuse(size: u64, reads: u32, trunc_to: u64, sink: &mut Sink) -> (Verdict,
     }
 }
 
+fn run_range_seq(size: u64, seed: u64, sink: &mut Sink) -> (Verdict, Option<u64>, Value) {
+    let desc = FileCase::RangeSeq { size, seed }.to_json();
+    let dir = TempDir::new("c18s");
+    let path = dir.0.join("f");
+    make_file(&path, size);
+    let want = content(0, size as usize);
+    let mut rng = crate::util::Rng::from_parts(seed, &[18, size]);
+    let r = crate::util::catch(|| -> Result<Option<(String, String)>, String> {
+        let crf = Crf::new(File::open(&path).map_err(|e| e.to_string())?, http::HeaderMap::new()).map_err(|e| e.to_string())?;
+        // tail first, then the front, then random ranges, then the whole file
+        let tail = 1 + rng.below(size.min(5000));
+        let mut seq: Vec<(u64, u64)> = vec![(size - tail, size), (0, (size - tail).max(1).min(size))];
+        for _ in 0..6 {
+            let a = rng.below(size);
+            seq.push((a, a + 1 + rng.below(size - a)));
+        }
+        seq.push((0, size));
+        for (i, (a, b)) in seq.iter().enumerate() {
+            let o = stream_read(&crf, *a, *b, None, &path);
+            if o.terminal != "end" || o.data != want[*a as usize..*b as usize] {
+                let at = o.data.iter().zip(want[*a as usize..].iter()).position(|(x, y)| x != y);
+                return Ok(Some(("range-sequence-wrong-bytes".into(), format!("range {} of the sequence ({}..{}) on one entity: terminal {}, {} of {} bytes, first difference at {:?} (earlier ranges: {:?})", i, a, b, o.terminal, o.data.len(), b - a, at, &seq[..i]))));
+            }
+        }
+        // multi-range through serve, the tail part first
+        if size >= 400 {
+            let front = (16u64, (size / 4).min(271));
+            let req = http::Request::builder().header("range", format!("bytes={}-{},{}-{}", size - tail.min(size / 4), size - 1, front.0, front.1)).body(()).unwrap();
+            let crf2 = Crf::new(File::open(&path).map_err(|e| e.to_string())?, http::HeaderMap::new()).map_err(|e| e.to_string())?;
+            let resp = http_serve::serve(crf2, &req);
+            let (parts, body) = resp.into_parts();
+            let d = drain(body, u64::MAX, 0);
+            let ct = parts.headers.get("content-type").map(|v| v.as_bytes().to_vec()).unwrap_or_default();
+            if parts.status.as_u16() == 206 && ct.starts_with(b"multipart/") {
+                let b = crate::model::multipart::boundary_of(&ct).ok_or("no boundary")?;
+                let p = crate::model::multipart::parse(&d.data, &b, d.terminal == Terminal::End).map_err(|e| format!("multipart body unreadable: {}", e))?;
+                for part in &p.parts {
+                    let data = &d.data[part.data_off..part.data_off + part.data_present];
+                    if part.last as usize >= want.len() || data != &want[part.first as usize..=part.last as usize] {
+                        return Ok(Some(("multipart-part-wrong-bytes".into(), format!("part {}-{} of a tail-first multi-range response over a {}-byte file does not hold those file bytes", part.first, part.last, size))));
+                    }
+                }
+                if p.parts.len() != 2 || d.terminal != Terminal::End {
+                    return Ok(Some(("multipart-incomplete".into(), format!("{} parts, terminal {:?}", p.parts.len(), d.terminal))));
+                }
+            }
+        }
+        Ok(None)
+    });
+    match r {
+        Err(p) => (Verdict::viol(format!("panic@{}", norm_loc(&p)), p), None, desc),
+        Ok(Err(e)) => (Verdict::DontCare(format!("not judged: {}", e)), None, desc),
+        Ok(Ok(Some((sig, msg)))) => (Verdict::viol(sig, msg), None, desc),
+        Ok(Ok(None)) => {
+            sink.count("range_sequences_on_one_entity");
+            (Verdict::Ok, Some(hash64(&("seq", size, seed))), desc)
+        }
+    }
+}
+
 fn run_non_regular(sink: &mut Sink) -> (Verdict, Option<u64>, Value) {
     let desc = FileCase::NonRegular.to_json();
     let dir = TempDir::new("c18n");
@@ -661,6 +728,7 @@ fn run_case(c: &FileCase, sink: &mut Sink) {
         FileCase::Read { size, a, b, cap, trunc, via_serve } => run_read(*size, *a, *b, *cap, *trunc, *via_serve, sink),
         FileCase::Meta { size } => run_meta(*size, sink),
         FileCase::Reuse { size, reads, trunc_to } => run_reuse(*size, *reads, *trunc_to, sink),
+        FileCase::RangeSeq { size, seed } => run_range_seq(*size, *seed, sink),
         FileCase::NonRegular => run_non_regular(sink),
         FileCase::BigSparse { size, a, b } => run_big_sparse(*size, *a, *b, sink),
         FileCase::Concurrent { size, tasks, per_task, seed } => run_concurrent(*size, *tasks, *per_task, *seed, sink),
@@ -686,7 +754,7 @@ impl Prop for C18 {
         "fault_enumeration"
     }
     fn rule(&self, ctx: &Ctx) -> String {
-        format!("real temporary files of sizes {:?} (position-hash content) on a multi-thread tokio runtime. Per size: every range with start <= end over {{0, 1, 65535, 65536, 65537, 131071, 131072, size-1, size}} x read cap {{none, 65536, 4097, 1}} (hook: short reads); truncation to {{0, start, start+1, 65535, 65536, end-1}} before poll 0, 1 and 2; the same through serve() with a Range header; metadata/ETag histories (two instances, length +1, mtime +-1ns / +-1s, replacement by a same-size same-mtime copy); construction on a directory, /dev/null and a FIFO; one entity streamed 1..6 times and then truncated (files of 1 .. 200001 bytes); sparse files of 70 MiB - 2 GiB streamed completely (thousands of consecutive full reads); 16 tasks streaming unaligned ranges of one shared entity concurrently. Non-trivial = distinct case judged (bytes compared, or truncation answered by an error within range-length+8 ready polls)", c18_sizes(ctx))
+        format!("real temporary files of sizes {:?} (position-hash content) on a multi-thread tokio runtime. Per size: every range with start <= end over {{0, 1, 65535, 65536, 65537, 131071, 131072, size-1, size}} x read cap {{none, 65536, 4097, 1}} (hook: short reads); truncation to {{0, start, start+1, 65535, 65536, end-1}} before poll 0, 1 and 2; the same through serve() with a Range header; metadata/ETag histories (two instances, length +1, mtime +-1ns / +-1s, replacement by a same-size same-mtime copy); construction on a directory, /dev/null and a FIFO; one entity streamed 1..6 times and then truncated (files of 1 .. 200001 bytes); sequences of ranges on one entity beginning with the tail of the file, and tail-first multi-range requests through serve; sparse files of 70 MiB - 2 GiB streamed completely (thousands of consecutive full reads); 16 tasks streaming unaligned ranges of one shared entity concurrently. Non-trivial = distinct case judged (bytes compared, or truncation answered by an error within range-length+8 ready polls)", c18_sizes(ctx))
     }
     fn n_blocks(&self, ctx: &Ctx) -> usize {
         c18_sizes(ctx).len() * 4 + 1 + if ctx.leg.slow() { 1 } else { 16 + 3 + 2 }
@@ -729,6 +797,12 @@ impl Prop for C18 {
             run_case(&FileCase::NonRegular, sink);
             for s in &sizes {
                 run_case(&FileCase::Meta { size: *s }, sink);
+            }
+            // one entity, a sequence of ranges beginning with the tail of the file
+            for (i, size) in [1u64, 100, 4096, 40_000, 65_536, 65_537, 200_001].into_iter().enumerate() {
+                for k in 0..(if ctx.leg.slow() { 1 } else { 4 }) {
+                    run_case(&FileCase::RangeSeq { size, seed: ctx.seed * 100 + (i * 10 + k) as u64 }, sink);
+                }
             }
             // one entity streamed several times, then the file shrinks
             for size in [1u64, 100, 4096, 4097, 65_536, 200_001] {
